@@ -39,11 +39,15 @@ def main():
         root = tempfile.mkdtemp(prefix="zcsim-matrix-")
         try:
             os.rmdir(root)
-            shutil.copytree(REPO, root, ignore=shutil.ignore_patterns(
-                "__pycache__", ".git", "*.egg-info", ".tox", "build"))
+            subprocess.run(["git", "-C", REPO, "worktree", "add", "-q",
+                            "--detach", root, "HEAD"], check=True)
             p = subprocess.run(["git", "apply", os.path.join(
                 sdir, sid, "patch.diff")], cwd=root, capture_output=True,
                 text=True)
+            if p.returncode != 0:
+                p = subprocess.run(["git", "apply", "--3way", os.path.join(
+                    sdir, sid, "patch.diff")], cwd=root, capture_output=True,
+                    text=True)
             if p.returncode != 0:
                 table[sid] = {"error": p.stderr[-200:]}
                 continue
@@ -65,7 +69,11 @@ def main():
             print(sid, " ".join("%s=%s" % (k, v["exit"])
                                 for k, v in row.items()), flush=True)
         finally:
+            subprocess.run(["git", "-C", REPO, "worktree", "remove",
+                            "--force", root], capture_output=True)
             shutil.rmtree(root, ignore_errors=True)
+            subprocess.run(["git", "-C", REPO, "worktree", "prune"],
+                           capture_output=True)
     sym = {0: ".", 1: "V", 2: "H"}
     lines = ["# Seeded changes x quick checks",
              "",
